@@ -162,7 +162,7 @@ func TestC13(t *testing.T) {
 	run := rep.Start("C13", "model_checking")
 	defer run.Finish(t)
 	// (1) reader ‖ writer: all interleavings
-	runConc(t, run, c13RaceScenarios(), 3*time.Minute, 40*time.Minute)
+	runConc(t, run, c13RaceScenarios(), 3*time.Minute, 25*time.Minute)
 	// (3) the same with long-lived (warm) writer and reader handles
 	// (run before the long history search so that a tight wall-clock budget cannot starve it)
 	warmDeadline := rep.Deadline(3*time.Minute, 30*time.Minute)
@@ -184,7 +184,7 @@ func TestC13(t *testing.T) {
 	if rep.Thorough() {
 		depth = 4
 	}
-	runHistoryShards(t, sub, "c13", len(c13Configs()), []int{0, 1}, depth, rep.Deadline(4*time.Minute, 60*time.Minute))
+	runHistoryShards(t, sub, "c13", len(c13Configs()), []int{0, 1}, depth, rep.Deadline(4*time.Minute, 40*time.Minute))
 	run.Merge(sub, "history_")
 	run.Set("warm_handle_histories", paths)
 	run.Set("warm_handle_queries", queries)
